@@ -168,6 +168,27 @@ def mergeComponents (pg : PG P) : List (List P) → PG P × Option Err
     | (pg', none) => mergeComponents pg' cs
     | (pg', some e) => (pg', some e)
 
+/-- The package's READERS of a collection: functions that are handed a `ProteinGroups` object (or the
+    group lists of one) and must leave it as it is.
+    * `resultRows` — `results.ProteinGroupResults.from_protein_groups(pg, infos, scores, qvals, cutoff,
+      keep_all_proteins)` (iterates the group lists, hands each to `ProteinGroupResult.from_protein_group`);
+    * `competition` — `competition.ProteinCompetitionStrategy.do_competition(pg, infos, score_type)` (its
+      returned collection SHARES the group lists with `pg`);
+    * `collectScores` — `scoring_strategy.ProteinScoringStrategy.collect_peptide_scores_per_protein(pg,
+      peptide_info_list, …)` (one `get_protein_group_idxs` per peptide);
+    * `reportChain` — the three in the order of `picked_group_fdr.get_protein_group_results`:
+      collect → competition → result rows of the collection the competition returned;
+    * `precursorQuants` — `quant.maxquant.add_precursor_quants(…, pg, results, …)` (one
+      `get_protein_group_idxs` per evidence row). -/
+inductive Reader | resultRows | competition | collectScores | reportChain | precursorQuants
+deriving DecidableEq, Repr
+
+/-- does the reader look proteins up through the index (then it fails loudly while the flag is down;
+    the harness always hands it at least one peptide / evidence row) -/
+def Reader.needsIndex : Reader → Bool
+  | .resultRows | .competition => false
+  | .collectScores | .reportChain | .precursorQuants => true
+
 inductive Op (P : Type) where
   | append (g : List P) | extend (gs : List (List P)) | createIndex
   | merge (sup p : P) | removeEmpty | addUnseen (other : List (List P))
@@ -184,6 +205,9 @@ inductive Op (P : Type) where
   | missing (ps : List P) | shared (ps : List P)
   | missingGroups (ps : List P) | sharedGroups (ps : List P)
   | size | allProteins
+  /-- a call of one of the package's readers with this collection as argument: no change of the
+      collection; a reader that uses the index raises the invalid-index error while the flag is down -/
+  | read (r : Reader)
 deriving Repr
 
 inductive Out (P : Type) where
@@ -202,6 +226,10 @@ deriving Repr
 def Op.isMutator : Op P → Bool
   | .append _ | .extend _ | .createIndex | .merge _ _ | .removeEmpty | .addUnseen _
   | .updateRescued _ | .mergeComponents _ => true
+  | _ => false
+
+def Op.isRead : Op P → Bool
+  | .read _ => true
   | _ => false
 
 def outOf {α : Type} (f : α → Out P) : Except Err α → Out P
@@ -235,6 +263,7 @@ def step (pg : PG P) : Op P → PG P × Out P
   | .sharedGroups ps  => (pg, outOf (fun gs => .bool (isSharedGroups gs)) (getGroups pg ps true))
   | .size         => (pg, .nat pg.groups.length)
   | .allProteins  => (pg, .prots (allProteins pg))
+  | .read r       => (pg, if r.needsIndex && !pg.valid then .err .invalidIndex else .unit)
 
 /-- a whole history: final state (outputs are produced by `trace`) -/
 def run (pg : PG P) (ops : List (Op P)) : PG P := ops.foldl (fun s op => (step s op).1) pg
